@@ -100,7 +100,7 @@ type Mutation {
 
 type Subscription {
   tick(n: Int): A
-  count: Int
+  count(from: Int = 5, step: Int! = 1): Int
   strict: Int!
 }
 """
